@@ -304,9 +304,10 @@ impl Check for C17 {
         let r = Rng::new(crate::harness::case_seed(seed, "C17", i));
         let setups: Vec<Setup> = Setup::all_basic();
         let setup = setups[(i % setups.len() as u64) as usize].clone();
-        let kind = match (i / setups.len() as u64) % 4 {
+        let kind_ix = (i / setups.len() as u64) % 5;
+        let kind = match kind_ix {
             0 | 1 => "enumerate",
-            2 => "sequence",
+            2 | 4 => "sequence", // 4: the read-only-directory sequence
             _ => "unusable",
         };
         let prestate = match (i / 3) % 5 {
@@ -320,6 +321,9 @@ impl Check for C17 {
         gp.n_files = gp.n_files.min(3);
         gp.n_types = gp.n_types.min(4);
         gp.n_cmds = gp.n_cmds.min(4);
+        if kind_ix == 4 {
+            gp.n_events = gp.n_events.max(1);
+        }
         let model = gen_model(&mut r.split("model"), &gp);
         let mut cfg = super::c14::gen_cfg(&mut r.split("cfg"), &setup);
         cfg.visualize = i % 5 == 0;
@@ -371,7 +375,7 @@ impl Check for C17 {
         let mut model_b = model_b;
         let mut prestate = prestate.to_string();
         let mut edit_desc = edit_desc;
-        if kind == "sequence" && i % 3 == 0 && !model.events().is_empty() {
+        if kind_ix == 4 && !model.events().is_empty() {
             let with_events = model.clone();
             for f in &mut model.files {
                 for it in &mut f.items {
@@ -382,7 +386,7 @@ impl Check for C17 {
             }
             model_b = Some(with_events);
             edit_desc = "the first events are added (events.ts has to be created)".into();
-            prestate = if (i / 3) % 2 == 0 { "revert".into() } else { "after_edit".into() };
+            prestate = if (i / 40) % 2 == 0 { "revert".into() } else { "after_edit".into() };
             seq = vec![vec![FaultSpec { at: FaultAt::DirReadOnly { dir_suffix: format!("/{}", setup.out) }, kind: FaultKind::Err(libc::EACCES) }]];
             recovery_fault = None;
         }
